@@ -1,4 +1,5 @@
 import Rio.Model.Cache
+import Rio.Generated.Facts
 /-!
 # C09 — A cache shelf exists only for a complete, verified fileset
 
@@ -136,6 +137,14 @@ theorem C09_race_loser_succeeds (s : CState) (i : Nat) (p : Proc) (rid : WareId)
   rw [hg]
   simp only [hpc, hs, if_true]
   exact ⟨by simp [setProc, hi], rfl⟩
+
+/-- **T-fact tie for the model's per-process temp dir.**  `Proc.tmp` is private to a process: the model assumes two
+    processes never pick the same `.tmp.unpack.*` name.  In the code the name is `guid.New()`; it is fresh within
+    a process only if the generator's shared state is read and written under its mutex alone.  (Freshness across
+    OS processes rests on the 80 random bits; stated in the trusted base.) -/
+theorem C09_tmp_names_tie :
+    Generated.populateTmpFromGuid = true ∧ Generated.guidSharedOutsideLock = [] ∧
+    Generated.guidLockEvents = ["lock", "unlock"] := by decide
 
 /-- non-vacuity (a test): two processes racing on the same ware, interleaved; both end `ok`, one shelf. -/
 example :
